@@ -219,6 +219,17 @@ def monitorC07 (cx : Ctx) : List Finding := Id.run do
                 s!"address {addr} silent since {t0} µs, still connected at {c.now} µs (timeout {dt} µs)" :: out
               reported := true
             if heardFrom cx c addr then lastRecv := some c.now
+      -- an accepted `disconnect_player h` drops every player behind h's address at once
+      -- ("An explicit disconnect_player call has the same effect immediately")
+      for c in cx.sc.calls do
+        if c.sid != s.sid || c.result != "ok" then continue
+        if c.call == ["disc", toString h] then
+          for (g, kg, ag) in s.players do
+            if kg == 'R' && ag == addr then
+              let (dg, _) := c.status.getD g (false, -1)
+              if !dg then
+                out := mkF cx "C07" "explicit-drop" s.sid c.lineNo
+                  s!"disconnect_player({h}) accepted, but player {g} behind the same address {addr} is still connected" :: out
       -- the survivor's final timeline for the dropped player
       let lastAdv := cx.sc.calls.toList.reverse.find? fun c => c.sid == s.sid && c.isAdvOk
       match lastAdv with
@@ -242,6 +253,30 @@ def monitorC07 (cx : Ctx) : List Finding := Id.run do
                         s!"dropped player {h}: frame {f} (≤ last frame {lastF}) has ({v},{ch}), real input {t}" :: out
                   | none => pure ()
               | none => pure ()
+  -- "then keeps advancing on its own": two peers, one of them dropped by the other (accepted
+  -- `disconnect_player`, or a Disconnected event for its address); in the clean epilogue the
+  -- survivor's frame counter must move although the dropped peer is silent or gone
+  match markLine cx "epilogue" with
+  | none => pure ()
+  | some line =>
+    if cx.p2p.length == 2 && !cx.anyPanic then
+      for s in cx.p2p do
+        let dropped := (cx.sc.calls.any fun c => c.sid == s.sid && c.lineNo < line && c.call.headD "" == "disc" && c.result == "ok") ||
+          ((eventsOf cx s.sid).any fun (i, e) => ((cx.sc.calls[i]?).map (·.lineNo)).getD line < line && evName e == "Disconnected" &&
+            s.players.any fun (_, k, a) => k == 'R' && eventAddr e == toString a)
+        if !dropped then continue
+        let calls := cx.sc.calls.toList.filter fun c => c.sid == s.sid
+        let before := (calls.filter (·.lineNo < line)).reverse.head?.bind (·.snapInt "cur")
+        let after := calls.reverse.head?.bind (·.snapInt "cur")
+        -- (calls that are answered at all: a session whose spectator died during the handshake never
+        -- becomes Running — the handshake has no timeout — and is not this clause's subject)
+        let epiAdv := (calls.filter fun c => c.lineNo > line && c.isAdvOk).length
+        match before, after with
+        | some b, some a =>
+          if epiAdv ≥ 40 && a - b < 10 then
+            out := mkF cx "C07" "stalled-after-drop" s.sid line
+              s!"the remote peer was dropped, yet current_frame went from {b} to {a} over {epiAdv} advance_frame calls of the clean epilogue" :: out
+        | _, _ => pure ()
   return out.reverse
 
 /-! ### C10 — survivors agree on the cut-off of a dropped player -/
@@ -541,6 +576,12 @@ def monitorC12 (cx : Ctx) : List Finding := Id.run do
       for (_, e) in evs do
         if evName e == "NetworkInterrupted" then
           out := mkF cx "C12" "keepalive" s.sid 0 s!"idle polling sessions saw {e}" :: out
+  -- "correctly timed": the Disconnected event of an address follows a silence of the peer itself
+  -- (packets stamped with its magic number) longer than the timeout, and does follow it — C07's
+  -- timing clauses, judged here on C12's families too (a stranger sending from the peer's address)
+  for f in monitorC07 cx do
+    if f.clause == "too-late" || f.clause == "too-early" then
+      out := { f with prop := "C12", clause := s!"timing-{f.clause}" } :: out
   -- report each (clause, sid) once
   return (out.reverse.foldl (fun acc f => if acc.any fun g => g.clause == f.clause && g.sid == f.sid then acc else acc ++ [f]) [])
 
